@@ -35,6 +35,8 @@ type Contract struct {
 	Honest      []Clause
 	LoopInv     map[int][]Clause
 	Modifies    []Clause
+	Asserts     []Clause
+	Cases       []caseSplit
 	Flags       map[string]bool
 	HintNames   []string
 	File        string
@@ -48,7 +50,13 @@ func (c *Contract) Key() string {
 	return c.Name
 }
 
+type caseSplit struct {
+	Param  string
+	Lo, Hi int
+}
+
 type Macro struct {
+	Opaque bool
 	Name   string
 	Params []string
 	Body   ast.Expr
@@ -70,7 +78,7 @@ type ContractSet struct {
 	Lemmas    []*Lemma
 }
 
-var kwRe = regexp.MustCompile(`^(func|def|mapinv|lemma|props|circuit|plain|requires|ensures|honest|loop|modifies|flag|hint|sound_ensures|complete_ensures|sound_requires|complete_requires)\b`)
+var kwRe = regexp.MustCompile(`^(func|def|opaque|reveal|mapinv|lemma|assert|cases|props|circuit|plain|requires|ensures|honest|loop|modifies|flag|hint|sound_ensures|complete_ensures|sound_requires|complete_requires)\b`)
 
 func endsOpen(s string) bool {
 	s = strings.TrimSpace(s)
@@ -148,11 +156,13 @@ func ParseContractComments(pkgPath, file string, fset *token.FileSet, f *ast.Fil
 			return fmt.Errorf("%s:%d: %v", file, st.no, err)
 		}
 		switch {
-		case strings.HasPrefix(t, "def "):
-			m, err := parseDef(t[4:])
+		case strings.HasPrefix(t, "def "), strings.HasPrefix(t, "opaque def "):
+			opq := strings.HasPrefix(t, "opaque ")
+			m, err := parseDef(t[strings.Index(t, "def ")+4:])
 			if err != nil {
 				return fail(err)
 			}
+			m.Opaque = opq
 			cs.Macros[m.Name] = m
 		case strings.HasPrefix(t, "mapinv "):
 			m, err := parseDef(t[7:])
@@ -314,6 +324,27 @@ func parseClause(c *Contract, t string, no int) error {
 			return err
 		}
 		c.Modifies = append(c.Modifies, cl)
+	case "reveal":
+		for _, fl := range strings.Fields(rest) {
+			c.Flags["reveal:"+fl] = true
+		}
+	case "assert":
+		cl, err := mk("")
+		if err != nil {
+			return err
+		}
+		c.Asserts = append(c.Asserts, cl)
+	case "cases":
+		fs := strings.Fields(rest)
+		if len(fs) != 3 {
+			return fmt.Errorf("cases <param> <lo> <hi>")
+		}
+		lo, err1 := strconv.Atoi(fs[1])
+		hi, err2 := strconv.Atoi(fs[2])
+		if err1 != nil || err2 != nil {
+			return fmt.Errorf("cases: bad bounds")
+		}
+		c.Cases = append(c.Cases, caseSplit{fs[0], lo, hi})
 	case "hint":
 		c.HintNames = append(c.HintNames, strings.Fields(rest)...)
 	case "loop":
